@@ -578,6 +578,16 @@ func iohelpCheckedStrings(c *core.Ctx, p *load.Prog, rule string) {
 				return true
 			})
 		}
+		badIdx := ""
+		ast.Inspect(f.fd.Body, func(n ast.Node) bool {
+			if ix, ok := n.(*ast.IndexExpr); ok && wire.Canon(ix.X) == "buf" {
+				if k, ok := constInt(f.info, ix.Index); !ok || k >= 4 {
+					badIdx = wire.Canon(ix)
+				}
+			}
+			return true
+		})
+		c.Check(rule, name+" indexes buf only inside the guarded prefix", f.pos(), badIdx == "", "the expression "+badIdx+" indexes buf at a position the length guards do not cover when the string is empty and ends the buffer")
 		c.Check(rule, name+" slices buf only after len(buf) >= 4", f.pos(), sliceSeen && okLen4, "the u32 length read and the slice must be dominated by the false edge of len(buf) < 4")
 		c.Check(rule, name+" slices buf only after len(buf) >= int(sz)+4 in 64-bit arithmetic", f.pos(), sliceSeen && okLenSz && wide,
 			"the slice buf[4:4+sz] must be dominated by the false edge of len(buf) < int(sz)+4 computed in an integer type that cannot wrap (a uint32 sum wraps for sz >= 2^32-4)")
@@ -609,10 +619,14 @@ func readClearsOnFailure(c *core.Ctx, p *load.Prog) bool {
 		if x, ok := nilTestExpr(ifs.Cond); !ok || x != "err" {
 			return true
 		}
-		ast.Inspect(ifs.Body, func(m ast.Node) bool {
+		for _, direct := range ifs.Body.List {
+			m := ast.Node(direct)
+			if es, ok := direct.(*ast.ExprStmt); ok {
+				m = es.X
+			}
 			switch y := m.(type) {
 			case *ast.CallExpr:
-				if wire.Canon(y.Fun) == "clear" && len(y.Args) == 1 && strings.HasPrefix(wire.Canon(y.Args[0]), "b") {
+				if wire.Canon(y.Fun) == "clear" && len(y.Args) == 1 && wire.Canon(y.Args[0]) == "b" {
 					cleared = true
 				}
 			case *ast.RangeStmt:
@@ -629,8 +643,7 @@ func readClearsOnFailure(c *core.Ctx, p *load.Prog) bool {
 					})
 				}
 			}
-			return true
-		})
+		}
 		return true
 	})
 	return cleared
@@ -724,6 +737,46 @@ func iohelpDrain(c *core.Ctx, p *load.Prog, rule string) {
 	})
 	c.Check(rule, "Drain latches the error of reading the tail", f.pos(), !discards && storesErr,
 		fmt.Sprintf("Drain discards the error of its read (discarded=%v, stores er.Err=%v): a reader that fails inside the skipped tail goes unreported", discards, storesErr))
+	// a hand-written drain loop must end on any error and on nothing else
+	loopOK := true
+	ast.Inspect(f.fd.Body, func(n ast.Node) bool {
+		loop, ok := n.(*ast.ForStmt)
+		if !ok {
+			return true
+		}
+		exits := 0
+		ast.Inspect(loop.Body, func(m ast.Node) bool {
+			ifs, ok := m.(*ast.IfStmt)
+			if !ok {
+				return true
+			}
+			leaves := false
+			ast.Inspect(ifs.Body, func(k ast.Node) bool {
+				switch x := k.(type) {
+				case *ast.BranchStmt:
+					if x.Tok == token.BREAK {
+						leaves = true
+					}
+				case *ast.ReturnStmt:
+					leaves = true
+				}
+				return true
+			})
+			if leaves {
+				exits++
+				if wire.Canon(ifs.Cond) != "err != nil" {
+					loopOK = false
+				}
+			}
+			return true
+		})
+		if exits == 0 && loop.Cond == nil {
+			loopOK = false
+		}
+		return true
+	})
+	c.Check(rule, "a loop in Drain ends exactly when a read fails", f.pos(), loopOK,
+		"Drain loops by hand and leaves the loop on something other than `err != nil` (a short read is not the end of the data; a non-EOF error that never turns into EOF must still end the loop)")
 	c.Check(rule, "Drain latches a premature end of the bounded region", f.pos(), shortRegion && storesErr,
 		"Drain does not look at the limiter's remaining count: a stream that ends inside the declared body length is reported as success")
 }
